@@ -205,7 +205,7 @@ def _count_stmt(st, name):
 def rule_once_c01(ctx):
     prog = ctx.prog
     r = RuleResult("R-ONCE/C01", floor=4)
-    f = prog.func("conditions.Condition._filter")
+    f = prog.flat("conditions.Condition._filter")
     where = f"{f.file}:{f.node.lineno}"
     # the lists handed to FilteredData(...)
     ret = None
@@ -263,7 +263,7 @@ def _truth_table(prog, module, expr, names):
 def rule_tt_c01(ctx):
     prog = ctx.prog
     r = RuleResult("R-TT/C01", floor=4)
-    init = prog.func("data.FilteredData.__init__")
+    init = prog.flat("data.FilteredData.__init__")
     where = f"{init.file}:{init.node.lineno}"
     comp = None
     for n in ast.walk(init.node):
@@ -599,7 +599,7 @@ def rule_chain(ctx):
         else:
             r.ok()
     # same-source / element-wise
-    bf = prog.func("conditions.ConditionBinaryOp._filter")
+    bf = prog.flat("conditions.ConditionBinaryOp._filter")
     inst = {"check": "every child filters the same data object"}
     r.instances.append(inst)
     calls = [n for n in ast.walk(bf.node) if isinstance(n, ast.Call) and isinstance(n.func, ast.Attribute) and n.func.attr == "_filter" and n.args]
@@ -625,7 +625,7 @@ def rule_chain(ctx):
     else:
         r.fail(Finding("R-CHAIN", "R-CHAIN|conditions.ConditionBinaryOp._filter|same-data", f"{bf.file}:{bf.node.lineno}",
                        "ConditionBinaryOp._filter must evaluate every child (all of self.children, unfiltered) on the identical `data` and `source_data`", []))
-    init = prog.func("data.FilteredDataBinaryOp.__init__")
+    init = prog.flat("data.FilteredDataBinaryOp.__init__")
     res = None
     for n in ast.walk(init.node):
         if isinstance(n, ast.Assign) and isinstance(n.targets[0], ast.Attribute) and n.targets[0].attr == "result":
@@ -645,7 +645,7 @@ def rule_chain(ctx):
 def rule_tt_c02(ctx):
     prog = ctx.prog
     r = RuleResult("R-TT/C02", floor=3)
-    f = prog.func("utils.null_condition_binary_check")
+    f = prog.flat("utils.null_condition_binary_check")
     from ..finite import run_function
     inst = {"function": f.qualname}
     r.instances.append(inst)
@@ -694,7 +694,7 @@ def rule_tt_c02(ctx):
                            f"{m.qualname} is `{norm(single_return(m)) if single_return(m) is not None else '...'}`; only the NullCondition class may count as null "
                            f"(a leaf on the `null` callable such as Value.null() is an always-true condition, not the identity of `or`/`xor`)", []))
     # __new__ uses the check and nothing else to short-circuit
-    new = prog.func("conditions.ConditionBinaryOp.__new__")
+    new = prog.flat("conditions.ConditionBinaryOp.__new__")
     rv = single_return(new)
     inst = {"__new__": norm(rv) if rv is not None else None}
     r.instances.append(inst)
@@ -731,7 +731,7 @@ def rule_partand(ctx):
     dp = prog.module("datapath")
     sites = []
     for fq in ("datapath.get_container_value_condition", "datapath.MapOrListValue.filter", "datapath.ContainerValue.from_spec"):
-        f = prog.func(fq)
+        f = prog.flat(fq)
         for n in ast.walk(f.node):
             if isinstance(n, ast.Assign) and isinstance(n.value, ast.BinOp) and isinstance(n.targets[0], ast.Name) and "condition" in n.targets[0].id:
                 sites.append((f, n))
@@ -744,7 +744,7 @@ def rule_partand(ctx):
             r.fail(Finding("R-PARTAND", f"R-PARTAND|{f.qualname}|{norm(n)}", f"{f.file}:{n.lineno}",
                            f"`{norm(n)}`: the key / index / value conditions of a path part must be and-combined (&)", []))
     # list branch uses list_condition, map branch map_condition
-    f = prog.func("datapath.MapOrListValue.filter")
+    f = prog.flat("datapath.MapOrListValue.filter")
     for n in ast.walk(f.node):
         if isinstance(n, ast.If) and "is_list" in ast.unparse(n.test):
             t = " ".join(ast.unparse(s) for s in n.body)
